@@ -17,7 +17,8 @@ pub const EXP: u64 = 10_000_000;
 
 fn c14_alphabet_quick(_cfg: &NodeCfg) -> Vec<Op> {
     // Send(5) fills and closes a small segment in one step
-    vec![Op::Send(1), Op::Send(5), Op::Advance(EXP + 1), Op::Maintain, Op::Restart, Op::SetExpiry(0)]
+    // SetExpiry(3*EXP): a *raised* finite expiry must protect already closed segments
+    vec![Op::Send(1), Op::Send(5), Op::Advance(EXP + 1), Op::Maintain, Op::Restart, Op::SetExpiry(3 * EXP)]
 }
 
 fn c14_alphabet(_cfg: &NodeCfg) -> Vec<Op> {
@@ -27,6 +28,7 @@ fn c14_alphabet(_cfg: &NodeCfg) -> Vec<Op> {
         Op::Advance(EXP + 1),
         Op::Maintain,
         Op::Restart,
+        Op::SetExpiry(3 * EXP),
         Op::SetExpiry(0),
         Op::SetExpiry(EXP),
         Op::Advance(EXP / 2),
